@@ -512,21 +512,21 @@ def partition_parents(tier):
 
 
 FAMILIES = [
-    # name, generator, estimated seconds per case (for shard sizing only)
-    ('struct', fam_struct, .12),
-    ('spline1d', fam_spline1d, .10),
-    ('spline2d', fam_spline2d, .19),
-    ('unstruct', fam_unstruct, .37),
-    ('hier1d', fam_hier1d, .17),
-    ('hier2d', fam_hier2d, .25),
-    ('trim', fam_trim, .17),
-    ('multipatch', fam_multipatch, .3),
-    ('box3d', fam_box3d, 1.15),
-    ('tensor', fam_tensor, .35),
-    ('masked', None, 1.3),
-    ('partition', None, .55),
+    # name, generator, measured cpu seconds per case (quick, thorough) - used for shard sizing only
+    ('struct', fam_struct, (.12, .16)),
+    ('spline1d', fam_spline1d, (.10, .08)),
+    ('spline2d', fam_spline2d, (.19, .17)),
+    ('unstruct', fam_unstruct, (.37, .25)),
+    ('hier1d', fam_hier1d, (.17, .14)),
+    ('hier2d', fam_hier2d, (.25, .6)),
+    ('trim', fam_trim, (.17, .12)),
+    ('multipatch', fam_multipatch, (.3, .25)),
+    ('box3d', fam_box3d, (1.15, 4.)),
+    ('tensor', fam_tensor, (.35, .2)),
+    ('masked', None, (1.3, 1.7)),
+    ('partition', None, (.55, .3)),
 ]
-SHARD_S = {'quick': 14., 'thorough': 60.}
+SHARD_S = {'quick': 14., 'thorough': 45.}
 
 
 def family_cases(name, tier):
@@ -549,7 +549,7 @@ def shards(tier, seed):
     out = []
     for name, gen, cost in FAMILIES:
         n = len(family_cases(name, tier))
-        parts = max(1, min(n, int(round(n * cost / SHARD_S[tier]))))
+        parts = max(1, min(n, int(round(n * cost[tier == 'thorough'] / SHARD_S[tier]))))
         for i in range(parts):
             out.append({'family': name, 'part': i, 'of': parts})
     return out
